@@ -231,8 +231,43 @@ def r2(R):
     convs = re.findall(r"%[-+ #0]*\d*(?:\.\d+)?[dfeEgGs]", fmt)
     op = m.func("labelimage.outputpeaks")
     tup = [n for n in ast.walk(op) if isinstance(n, ast.BinOp) and isinstance(n.op, ast.Mod) and src(n.left) == "self.format"]
-    R.shape(len(tup) == 1 and isinstance(tup[0].right, ast.Tuple), "C12.R2", LI, "labelimage.outputpeaks", "the self.format % (...) tuple")
-    vals = [src(e) for e in tup[0].right.elts]
+    R.shape(len(tup) == 1, "C12.R2", LI, "labelimage.outputpeaks", "the self.format % (...) tuple")
+
+    def expand(node, depth=0):
+        """the printed values, in order, as source texts: a tuple, tuple(...) / list(...) of one, a sum of them, a name built by
+        '=' and '+=' statements, or a comprehension over a class-level tuple of field names"""
+        if depth > 4:
+            return None
+        if isinstance(node, (ast.Tuple, ast.List)):
+            return [src(e) for e in node.elts]
+        if isinstance(node, ast.Call) and src(node.func) in ("tuple", "list") and len(node.args) == 1:
+            return expand(node.args[0], depth + 1)
+        if isinstance(node, ast.BinOp) and isinstance(node.op, ast.Add):
+            a_, b_ = expand(node.left, depth + 1), expand(node.right, depth + 1)
+            return None if a_ is None or b_ is None else a_ + b_
+        if isinstance(node, ast.Name):
+            parts = []
+            for st in ast.walk(op):
+                if isinstance(st, ast.Assign) and len(st.targets) == 1 and src(st.targets[0]) == node.id:
+                    parts = [expand(st.value, depth + 1)]
+                elif isinstance(st, ast.AugAssign) and isinstance(st.op, ast.Add) and src(st.target) == node.id:
+                    parts.append(expand(st.value, depth + 1))
+            if not parts or any(p_ is None for p_ in parts):
+                return None
+            return [x for p_ in parts for x in p_]
+        if isinstance(node, (ast.ListComp, ast.GeneratorExp)) and len(node.generators) == 1 and not node.generators[0].ifs and isinstance(node.generators[0].target, ast.Name):
+            it = node.generators[0].iter
+            if isinstance(it, ast.Attribute) and src(it.value) in ("self", "labelimage"):
+                seq = [a_.value for a_ in cls.body if isinstance(a_, ast.Assign) and src(a_.targets[0]) == it.attr]
+                if len(seq) == 1 and isinstance(seq[0], (ast.Tuple, ast.List)) and all(isinstance(e, ast.Name) for e in seq[0].elts):
+                    v = node.generators[0].target.id
+                    return [re.sub(r"\b%s\b" % re.escape(v), e.id, src(node.elt)) for e in seq[0].elts]
+        return None
+    vals = expand(tup[0].right)
+    R.shape(vals is not None, "C12.R2", LI, "labelimage.outputpeaks", "the values printed by self.format % (...) as an explicit sequence")
+    rowvar = [src(l.target) for l in ast.walk(op) if isinstance(l, ast.For) and any(x is tup[0] for x in ast.walk(l))]
+    rowvar = rowvar[-1] if rowvar else "i"
+    vals = [re.sub(r"^%s\[" % re.escape(rowvar), "i[", v) for v in vals]
     R.check(len(titles) == len(convs) == len(vals) == len(ROLES), "C12.R2", LI, op.lineno, "labelimage", "columns: %d titles, %d conversions, %d values" % (len(titles), len(convs), len(vals)),
             "titles, format and printed values are not the same number of columns: every later column is shifted")
     cfm = pyfacts.module(R, CF)
@@ -251,7 +286,7 @@ def r2(R):
             R.check(not (c.endswith("d") or c.endswith(".0f")), "C12.R2", LI, op.lineno, "labelimage", "float column %s uses %s" % (t, c), "a real-valued column is printed as an integer: precision lost")
     R.check(fmt.endswith("\n") and class_string(cls, "titles").endswith("\n"), "C12.R2", LI, op.lineno, "labelimage", "rows and title line newline-terminated", "missing newline")
     u = ast.unparse(op)
-    R.check("if i[s_1] < 0.1" in u and "continue" in u, "C12.R2", LI, op.lineno, "labelimage.outputpeaks", "rows emptied by a merge are skipped", "merged-away (zeroed) rows would be printed as peaks")
+    R.check("if %s[s_1] < 0.1" % rowvar in u and "continue" in u, "C12.R2", LI, op.lineno, "labelimage.outputpeaks", "rows emptied by a merge are skipped", "merged-away (zeroed) rows would be printed as peaks")
 
 
 # --------------------------------------------------------------------------------------------------
